@@ -589,6 +589,10 @@ def rule_merge_other(check, rule):
                 check.violation(rule, st, 'plain function: calls %s' % calls, key=key)
             else:
                 check.holds(rule, st, 'plain function: prepared directly', key=key)
+    if '__init__|stacked=True' not in seen:
+        check.violation(rule, site_of(init, init.node), '__init__ never takes the "wrapping another translator" branch (no test of isinstance(func, '
+                        '_PokTranslator) leads to _merge_other): the inner modifier\'s selection is lost when modifiers are stacked',
+                        key='__init__|stacked=True', witness="kwoargs('b')(posoargs('a')(f)) must advertise (a, /, *, b)")
 
 
 def rule_annotate_after_modifier(check, rule):
